@@ -291,7 +291,8 @@ LITS = [0, -1, 'a', 'a.b', "q'\"", 'back\\slash', '', None, 1.5, True, (1, 2), (
         slice(None, None, -1), len, b'x', frozenset([1]), T['n'], S.v, 1, 1.0, False, 0.0]
 CALLS = [((), {}), ((1, 'x'), {}), ((), {'k': None}), ((T['a'], [1, T.b]), {'z': (1,)}), ((len,), {})]
 ATTRS = ['a', 'b_c', '_p']
-NSTEPS = len(LITS) + len(ATTRS) + 4 + len(CALLS)     # 32
+DUNDERISH = ['priv', 'v_', 'init__']
+NSTEPS = len(LITS) + len(ATTRS) + 4 + len(CALLS) + len(DUNDERISH)
 
 
 def _step(t, c):
@@ -320,6 +321,10 @@ def _step(t, c):
     for args, kw in CALLS:
         if c == n:
             return t(*args, **kw)
+        n += 1
+    for name in DUNDERISH:                # attribute names that START with two underscores (reserved, spelled T.__('name'))
+        if c == n:
+            return t.__(name)
         n += 1
     return None
 
@@ -472,7 +477,7 @@ def _dom(n, quick_pad=0):
             '(k is None or (-{m} <= k <= {m} and k != 0))').format(n=n, m=n + 1)
 
 
-RT_SUBSET = [0, 2, 9, 11, 12, 13, 17, 18, 20, 21, 22, 24, 27, 28, 29, 30, 32, 34]   # one step of every kind
+RT_SUBSET = [0, 2, 9, 11, 12, 13, 17, 18, 20, 21, 22, 24, 27, 28, 29, 30, 32, 34, 36]   # one step of every kind
 
 
 def obligations(tier):
